@@ -53,7 +53,8 @@ def run(sc, keep_sim=False, hold=None):
                 for cid in cd.get('subs', []):
                     st.ca_subscribe(ci, st.cb(cid, 'sub'))
                 for cid in cd.get('req', []):
-                    st.ca_subscribe_request(ci, st.cb(cid, 'req'))
+                    # (req_scripts: what the application does inside that request callback)
+                    st.ca_subscribe_request(ci, st.cb(cid, 'req', script=_script((cd.get('req_scripts') or {}).get(str(cid)), st)))
         for te in sc.get('tx_errors', []):
             # {'s': stack, 'nth': k}: the k-th frame that stack hands to the driver is refused with can.CanError
             stacks[te['s']].tx_error_at = set(getattr(stacks[te['s']], 'tx_error_at', set())) | {te['nth']}
@@ -139,6 +140,14 @@ def _do(st, a):
             th.gen += 1
             st.sim.schedule(st.sim.now + a['d'], 'timeout', (th, th.gen))
             th.park()
+    elif op == 'raise':
+        # the application's callback fails (at its first invocation only when 'once' is given)
+        if a.get('once') is not None:
+            done = st.once_done = getattr(st, 'once_done', set())
+            if a['once'] in done:
+                return
+            done.add(a['once'])
+        raise RuntimeError('application callback failed')
     elif op == 'unsubscribe':
         st.unsubscribe(st.cbs.get(a['cid']) or st.cb(a['cid'], 'sub'))
     elif op == 'subscribe':
